@@ -1,6 +1,6 @@
 #!/bin/sh
 # tools/verify_seed.sh <id>: in the scratch worktree /tmp/wt-<id>: tests+demo with the patch, then without, then re-apply
-id=$1; wt=/tmp/wt-$id
+id=$1; wt=${2:-/tmp/wt-$id}
 cd $wt || exit 2
 git checkout -q -- . ; git apply /verif/seeded/$id/patch.diff || { echo "patch does not apply"; exit 2; }
 tw=$(/venv/bin/python -m pytest -q -p no:cacheprovider 2>&1 | tail -1)
